@@ -244,6 +244,17 @@ def check(case):
                 keys = []
             if keys and keys != expected:
                 return Result.violation("solution-keys", f"{keys} vs {expected}; {desc}", classes)
+        # a solve with a box-only method must leave the declared bounds alone (constraints are not folded into Variable.lb/ub)
+        if names and case.get("mutate", True):
+            before = [tuple(t) for t in P.get_bounds()]
+            try:
+                P.solve(method=["L-BFGS-B", "TNC"][len(names) % 2])
+            except Exception:
+                pass
+            after = [tuple(t) for t in P.get_bounds()]
+            if after != before:
+                return Result.violation("bounds-changed-by-solve", f"get_bounds() before a box-method solve {before}, after {after}; {desc}", classes)
+            classes.append("bounds-after-box-solve")
         # the objective is replaced AFTER the variable list was read: the list must follow the new model
         if len(expected) >= 2:
             keep = expected[0]
